@@ -150,3 +150,862 @@ Proof.
         + rewrite len_N_app, B. cbn [snd] in Hf. rewrite (Hf x a Ea Hx). reflexivity. }
     destruct Hfix as [A B]. rewrite layout_all_fixed; assumption.
 Qed.
+
+(* ================= leaf round trips ================= *)
+Lemma to_nat_len_N {A} (l : list A) : N.to_nat (len_N l) = length l.
+Proof. unfold len_N. apply Nat2N.id. Qed.
+
+Lemma le_value_le_bytes : forall n v, le_value (le_bytes n v) = v mod 256 ^ N.of_nat n.
+Proof.
+  induction n as [|n IH]; intros v.
+  - simpl. now rewrite N.mod_1_r.
+  - cbn [le_bytes le_value]. rewrite IH.
+    rewrite Nat2N.inj_succ, N.pow_succ_r'.
+    rewrite N.mod_mul_r; [reflexivity | lia | apply N.pow_nonzero; lia].
+Qed.
+
+Lemma pow256 n : 256 ^ n = 2 ^ (8 * n).
+Proof. rewrite N.pow_mul_r. reflexivity. Qed.
+
+Lemma deser_ser_uint n x : has_type (TUint n) (VUint x) = true ->
+  deserialize (TUint n) (serialize (TUint n) (VUint x)) = Some (VUint x).
+Proof.
+  cbn [has_type serialize deserialize]. intros Hx. apply N.ltb_lt in Hx.
+  unfold len_N. rewrite le_bytes_length, N2Nat.id, N.eqb_refl.
+  rewrite le_value_le_bytes, N2Nat.id, pow256. now rewrite N.mod_small.
+Qed.
+
+Lemma deser_ser_bool b : deserialize TBool (serialize TBool (VBool b)) = Some (VBool b).
+Proof. destruct b; reflexivity. Qed.
+
+(* ---- bits ---- *)
+Lemma bits_to_byte_scale : forall c w, bits_to_byte c w = w * bits_to_byte c 1.
+Proof.
+  induction c as [|b c IH]; intros w; cbn [bits_to_byte]; [lia|].
+  rewrite (IH (2 * w)), (IH (2 * 1)). destruct b; lia.
+Qed.
+Lemma byte_bits_zero k : byte_bits k 0 = repeat false k.
+Proof.
+  induction k; cbn [byte_bits repeat]; [reflexivity|].
+  change (0 / 2) with 0. change (N.odd 0) with false. now rewrite IHk.
+Qed.
+Lemma byte_bits_bits_to_byte : forall k c, (length c <= k)%nat ->
+  byte_bits k (bits_to_byte c 1) = c ++ repeat false (k - length c).
+Proof.
+  induction k as [|k IH]; intros c Hc.
+  - destruct c; [reflexivity | simpl in Hc; lia].
+  - destruct c as [|b c].
+    + change (bits_to_byte [] 1) with 0. rewrite byte_bits_zero. reflexivity.
+    + cbn [bits_to_byte byte_bits length app]. rewrite (bits_to_byte_scale c (2 * 1)).
+      assert (Hodd : N.odd ((if b then 1 else 0) + 2 * 1 * bits_to_byte c 1) = b).
+      { replace (2 * 1 * bits_to_byte c 1) with (2 * bits_to_byte c 1) by lia.
+        rewrite N.odd_add_mul_2. destruct b; reflexivity. }
+      rewrite Hodd. f_equal.
+      assert (Hdiv : ((if b then 1 else 0) + 2 * 1 * bits_to_byte c 1) / 2 = bits_to_byte c 1).
+      { destruct b; [|].
+        - replace (1 + 2 * 1 * bits_to_byte c 1) with (1 + bits_to_byte c 1 * 2) by lia.
+          rewrite N.div_add by lia. reflexivity.
+        - replace (0 + 2 * 1 * bits_to_byte c 1) with (bits_to_byte c 1 * 2) by lia. now rewrite N.div_mul by lia. }
+      rewrite Hdiv. apply IH. simpl in Hc. lia.
+Qed.
+
+Lemma unpack_pack_bits : forall fuel bs, (length bs <= fuel)%nat ->
+  exists pad, unpack_bits (pack_bits fuel bs) = bs ++ repeat false pad.
+Proof.
+  induction fuel as [|f IH]; intros bs Hf.
+  - destruct bs; [exists 0%nat; reflexivity | simpl in Hf; lia].
+  - destruct bs as [|b bs']; [exists 0%nat; reflexivity|].
+    set (bs := b :: bs') in *. cbn [pack_bits]. unfold bs at 1. fold bs.
+    unfold unpack_bits. cbn [flat_map]. fold (unpack_bits (pack_bits f (skipn 8 bs))).
+    rewrite byte_bits_bits_to_byte by (rewrite firstn_length; lia).
+    destruct (Nat.le_gt_cases 8 (length bs)) as [Hge|Hlt].
+    + destruct (IH (skipn 8 bs)) as [pad Hp]; [rewrite skipn_length; lia|].
+      exists pad. rewrite Hp. rewrite firstn_length. replace (8 - Nat.min 8 (length bs))%nat with 0%nat by lia.
+      cbn [repeat]. rewrite app_nil_r, app_assoc, firstn_skipn. reflexivity.
+    + rewrite firstn_all2 by lia. rewrite skipn_all2 by lia.
+      destruct f; cbn [pack_bits flat_map unpack_bits]; exists (8 - length bs)%nat; now rewrite app_nil_r.
+Qed.
+
+Lemma firstn_app_exact {A} (a b : list A) : firstn (length a) (a ++ b) = a.
+Proof. rewrite firstn_app, Nat.sub_diag, firstn_all. cbn [firstn]. apply app_nil_r. Qed.
+Lemma skipn_app_exact {A} (a b : list A) : skipn (length a) (a ++ b) = b.
+Proof. rewrite skipn_app, Nat.sub_diag, skipn_all. reflexivity. Qed.
+Lemma forallb_negb_repeat n : forallb negb (repeat false n) = true.
+Proof. induction n; simpl; auto. Qed.
+
+Lemma deser_ser_bitvector n bs : has_type (TBitvector n) (VBits bs) = true ->
+  deserialize (TBitvector n) (serialize (TBitvector n) (VBits bs)) = Some (VBits bs).
+Proof.
+  cbn [has_type serialize deserialize]. intros Hn. apply N.eqb_eq in Hn.
+  assert (Hl : len_N (bits_bytes bs) = (n + 7) / 8).
+  { unfold len_N in *. rewrite bits_bytes_length. subst n. rewrite Nat2N.inj_div, Nat2N.inj_add. reflexivity. }
+  rewrite Hl, N.eqb_refl.
+  destruct (unpack_pack_bits (length bs) bs (le_n _)) as [pad Hp]. fold (bits_bytes bs) in Hp. rewrite Hp.
+  subst n. rewrite to_nat_len_N, skipn_app_exact, firstn_app_exact, forallb_negb_repeat. reflexivity.
+Qed.
+
+(* ---- bitlists ---- *)
+Lemma pack_bits_nil f : pack_bits f [] = [].
+Proof. destruct f; reflexivity. Qed.
+
+Lemma bits_to_byte_app : forall a b w,
+  bits_to_byte (a ++ b) w = bits_to_byte a w + bits_to_byte b (w * 2 ^ N.of_nat (length a)).
+Proof.
+  induction a as [|x a IH]; intros b w.
+  - cbn [app length bits_to_byte]. change (N.of_nat 0) with 0. rewrite N.pow_0_r, N.mul_1_r. lia.
+  - cbn [app bits_to_byte length]. rewrite IH. rewrite Nat2N.inj_succ, N.pow_succ_r'.
+    replace (2 * w * 2 ^ N.of_nat (length a)) with (w * (2 * 2 ^ N.of_nat (length a))) by lia. lia.
+Qed.
+Lemma bits_to_byte_lt : forall c, bits_to_byte c 1 < 2 ^ N.of_nat (length c).
+Proof.
+  induction c as [|b c IH]; [cbn; lia|].
+  cbn [bits_to_byte length]. rewrite (bits_to_byte_scale c (2 * 1)), Nat2N.inj_succ, N.pow_succ_r'.
+  destruct b; lia.
+Qed.
+
+Lemma pack_delim : forall fuel bs, (length bs + 1 <= fuel)%nat ->
+  exists P c, pack_bits fuel (bs ++ [true]) = P ++ [bits_to_byte (c ++ [true]) 1] /\
+              length bs = (8 * length P + length c)%nat /\ (length c < 8)%nat.
+Proof.
+  induction fuel as [|f IH]; intros bs Hf; [lia|].
+  destruct (Nat.lt_ge_cases (length bs) 8) as [Hlt|Hge].
+  - exists [], bs. split; [|simpl; lia].
+    assert (Hne : bs ++ [true] <> []) by (destruct bs; discriminate).
+    cbn [pack_bits]. destruct (bs ++ [true]) as [|y ys] eqn:E; [contradiction|]. rewrite <- E.
+    rewrite firstn_all2 by (rewrite app_length; simpl; lia).
+    rewrite skipn_all2 by (rewrite app_length; simpl; lia).
+    now rewrite pack_bits_nil.
+  - destruct (IH (skipn 8 bs)) as [P [c [Hp [Hl Hc]]]]; [rewrite skipn_length; lia|].
+    exists (bits_to_byte (firstn 8 bs) 1 :: P), c. split; [|split; [|assumption]].
+    + cbn [pack_bits]. destruct (bs ++ [true]) as [|y ys] eqn:E; [destruct bs; discriminate|]. rewrite <- E.
+      rewrite firstn_app, skipn_app. replace (8 - length bs)%nat with 0%nat by lia.
+      change (firstn 0 [true]) with (@nil bool). change (skipn 0 [true]) with [true]. rewrite app_nil_r.
+      rewrite Hp. reflexivity.
+    + rewrite skipn_length in Hl. cbn [length]. lia.
+Qed.
+
+Lemma deser_ser_bitlist l bs : has_type (TBitlist l) (VBits bs) = true ->
+  deserialize (TBitlist l) (serialize (TBitlist l) (VBits bs)) = Some (VBits bs).
+Proof.
+  cbn [has_type serialize deserialize]. intros Hl.
+  assert (Hdec : bitlist_decode (bits_bytes (bs ++ [true])) = Some bs).
+  { unfold bitlist_decode, bits_bytes.
+    destruct (pack_delim (length (bs ++ [true])) bs) as [P [c [Hp [Hlen Hc]]]]; [rewrite app_length; simpl; lia|].
+    destruct (unpack_pack_bits (length (bs ++ [true])) (bs ++ [true]) (le_n _)) as [pad Hu].
+    rewrite Hu. rewrite Hp. rewrite rev_app_distr. cbn [rev app].
+    set (last := bits_to_byte (c ++ [true]) 1).
+    assert (Hlast : last = bits_to_byte c 1 + 2 ^ N.of_nat (length c)).
+    { unfold last. rewrite bits_to_byte_app. cbn [bits_to_byte]. lia. }
+    pose proof (bits_to_byte_lt c) as Hlt.
+    assert (Hpos : 0 < 2 ^ N.of_nat (length c)) by (apply N.neq_0_lt_0, N.pow_nonzero; lia).
+    assert (Hlog : N.log2 last = N.of_nat (length c)).
+    { apply N.log2_unique; [lia|]. rewrite N.pow_succ_r'. lia. }
+    assert (Hnz : (last =? 0) = false) by (apply N.eqb_neq; lia).
+    rewrite Hnz, Hlog.
+    replace (N.to_nat ((len_N (P ++ [last]) - 1) * 8 + N.of_nat (length c))) with (length bs).
+    2:{ unfold len_N. rewrite app_length. cbn [length]. lia. }
+    rewrite <- app_assoc. now rewrite firstn_app_exact. }
+  rewrite Hdec. now rewrite Hl.
+Qed.
+
+Lemma deser_ser_bytevector n bs : has_type (TByteVector n) (VBytes bs) = true ->
+  deserialize (TByteVector n) (serialize (TByteVector n) (VBytes bs)) = Some (VBytes bs).
+Proof.
+  cbn [has_type serialize deserialize]. intros H. apply andb_true_iff in H as [H _]. now rewrite H.
+Qed.
+Lemma deser_ser_bytelist n bs : has_type (TByteList n) (VBytes bs) = true ->
+  deserialize (TByteList n) (serialize (TByteList n) (VBytes bs)) = Some (VBytes bs).
+Proof.
+  cbn [has_type serialize deserialize]. intros H. apply andb_true_iff in H as [H _]. now rewrite H.
+Qed.
+
+(* ================= layout machinery ================= *)
+Definition var_parts (parts : list (bool * bytes)) : list bytes :=
+  flat_map (fun p : bool * bytes => if fst p then [] else [snd p]) parts.
+(* offsets given to the variable parts, starting at [off] *)
+Fixpoint offs_of (parts : list (bool * bytes)) (off : N) : list N :=
+  match parts with
+  | [] => []
+  | (true, _) :: ps => offs_of ps off
+  | (false, b) :: ps => off :: offs_of ps (off + len_N b)
+  end.
+Fixpoint running (off : N) (vs : list bytes) : list N :=
+  match vs with [] => [] | v :: vs' => off :: running (off + len_N v) vs' end.
+
+Lemma offs_of_running parts off : offs_of parts off = running off (var_parts parts).
+Proof.
+  revert off. induction parts as [|[f b] ps IH]; intros off; [reflexivity|].
+  destruct f; cbn [offs_of var_parts flat_map fst snd app]; [apply IH|].
+  cbn [running]. f_equal. apply IH.
+Qed.
+Lemma layout_var_concat parts : layout_var parts = concat (var_parts parts).
+Proof.
+  induction parts as [|[f b] ps IH]; [reflexivity|].
+  destruct f; cbn [layout_var var_parts flat_map fst snd app concat]; [apply IH | now rewrite IH].
+Qed.
+Lemma layout_fixed_len parts off : len_N (layout_fixed parts off) = fixed_part_len parts.
+Proof.
+  revert off. induction parts as [|[f b] ps IH]; intros off; [reflexivity|].
+  destruct f; cbn [layout_fixed fixed_part_len fold_right fst snd].
+  - rewrite len_N_app, IH. reflexivity.
+  - rewrite len_N_app, IH. unfold uint32_bytes, len_N at 1. rewrite le_bytes_length. reflexivity.
+Qed.
+
+(* slicing *)
+Lemma slice_mid (A B C : bytes) : slice (A ++ B ++ C) (len_N A) (len_N A + len_N B) = B.
+Proof.
+  unfold slice. rewrite to_nat_len_N, skipn_app_exact.
+  replace (len_N A + len_N B - len_N A) with (len_N B) by lia.
+  rewrite to_nat_len_N. apply firstn_app_exact.
+Qed.
+Lemma slice_mid' (A B C : bytes) a b : a = len_N A -> b = len_N A + len_N B -> slice (A ++ B ++ C) a b = B.
+Proof. intros -> ->. apply slice_mid. Qed.
+
+(* cutting the variable region back into the parts *)
+Lemma cut_running : forall (vs : list bytes) (X : bytes),
+  vs <> [] ->
+  cut (X ++ concat vs) (running (len_N X) vs) (len_N X + len_N (concat vs)) = vs.
+Proof.
+  induction vs as [|v vs IH]; intros X Hne; [contradiction|].
+  destruct vs as [|v' vs'].
+  - cbn [running cut concat]. rewrite app_nil_r. f_equal.
+    rewrite <- (app_nil_r (X ++ v)), <- app_assoc. apply slice_mid.
+  - cbn [running]. cbn [cut]. cbn [concat]. f_equal.
+    + apply slice_mid.
+    + specialize (IH (X ++ v)). rewrite len_N_app in IH. cbn [running concat] in IH.
+      rewrite <- app_assoc in IH. rewrite len_N_app. rewrite N.add_assoc.
+      apply IH. discriminate.
+Qed.
+
+Lemma offsets_ok_running : forall vs off total,
+  off + len_N (concat vs) = total ->
+  offsets_ok off (running off vs) total = true.
+Proof.
+  induction vs as [|v vs IH]; intros off total Ht.
+  - cbn [running offsets_ok]. cbn [concat] in Ht. rewrite len_N_nil in Ht. apply N.leb_le. lia.
+  - cbn [running offsets_ok]. rewrite N.leb_refl. cbn [andb].
+    destruct vs as [|v' vs'].
+    + cbn [running offsets_ok]. cbn [concat] in Ht. rewrite app_nil_r in Ht. apply N.leb_le. lia.
+    + cbn [concat] in Ht. rewrite len_N_app in Ht.
+      specialize (IH (off + len_N v) total). cbn [running] in IH |- *. cbn [offsets_ok] in IH |- *.
+      assert (Hle : (off <=? off + len_N v) = true) by (apply N.leb_le; lia).
+      rewrite Hle. cbn [andb]. assert (Ht' : off + len_N v + len_N (concat (v' :: vs')) = total) by (cbn [concat]; rewrite len_N_app; rewrite len_N_app in Ht; lia).
+      apply IH in Ht'. apply andb_true_iff in Ht' as [_ Ht']. exact Ht'.
+Qed.
+
+(* ================= well-formed types ================= *)
+Fixpoint wf_ty (t : ty) : bool :=
+  match t with
+  | TUint n => 0 <? n
+  | TBool => true
+  | TByteVector n => 0 <? n
+  | TByteList _ => true
+  | TBitvector n => 0 <? n
+  | TBitlist _ => true
+  | TVector et n => (0 <? n) && wf_ty et && is_fixed et     (* the specifications use no vector of variable-size elements *)
+  | TList et _ => wf_ty et
+  | TContainer fs =>
+      match fs with [] => false | _ => true end &&
+      (fix go (fs : list (string * ty)) : bool :=
+         match fs with [] => true | (_, t) :: fs' => wf_ty t && go fs' end) fs
+  end.
+Fixpoint wf_fields (fs : list (string * ty)) : bool :=
+  match fs with [] => true | (_, t) :: fs' => wf_ty t && wf_fields fs' end.
+Lemma wf_ty_container fs : wf_ty (TContainer fs) = match fs with [] => false | _ => true end && wf_fields fs.
+Proof. reflexivity. Qed.
+
+Lemma wf_fixed_pos : forall t s, wf_ty t = true -> fixed_size t = Some s -> 0 < s.
+Proof.
+  induction t using ty_ind'; intros s Hw Hs.
+  - cbn [wf_ty fixed_size] in *. injection Hs as <-. now apply N.ltb_lt in Hw.
+  - cbn [wf_ty fixed_size] in *. injection Hs as <-. lia.
+  - cbn [wf_ty fixed_size] in *. injection Hs as <-. now apply N.ltb_lt in Hw.
+  - discriminate.
+  - cbn [wf_ty fixed_size] in *. injection Hs as <-. apply N.ltb_lt in Hw.
+    assert (H8 : 8 <= n + 7) by lia. pose proof (N.div_le_mono 8 (n + 7) 8 ltac:(lia) H8) as H0.
+    change (8 / 8) with 1 in H0. lia.
+  - discriminate.
+  - cbn [wf_ty fixed_size] in *.
+    apply andb_true_iff in Hw as [Hw Hf]. apply andb_true_iff in Hw as [Hn Hw]. apply N.ltb_lt in Hn.
+    destruct (fixed_size t) as [a|] eqn:E; [|discriminate]. injection Hs as <-.
+    specialize (IHt a Hw eq_refl). nia.
+  - discriminate.
+  - rewrite wf_ty_container in Hw. rewrite fixed_size_container in Hs.
+    apply andb_true_iff in Hw as [Hne Hw].
+    destruct fs as [|[fn ft] fs']; [discriminate|].
+    inversion H as [|? ? Hft Hrest]; subst. cbn [wf_fields size_fields] in *.
+    apply andb_true_iff in Hw as [Hwt _].
+    destruct (fixed_size ft) as [a|] eqn:Ea; [|discriminate].
+    destruct (size_fields fs') as [b|]; [|discriminate]. injection Hs as <-.
+    cbn [snd] in Hft. specialize (Hft a Hwt Ea). lia.
+Qed.
+
+(* ================= homogeneous sequences of fixed-size elements ================= *)
+Lemma all_some_map_ok {A B} (f : B -> option A) (g : A -> B) (vs : list A) :
+  (forall x, In x vs -> f (g x) = Some x) -> all_some (map f (map g vs)) = Some vs.
+Proof.
+  induction vs as [|x vs IH]; intros Hf; [reflexivity|].
+  cbn [map all_some]. rewrite (Hf x (or_introl eq_refl)). rewrite IH; [reflexivity|].
+  intros y Hy. apply Hf. now right.
+Qed.
+
+Lemma chunks_of_concat : forall (xs : list bytes) sz fuel,
+  (0 < sz)%nat -> Forall (fun x => length x = sz) xs -> (length xs <= fuel)%nat ->
+  chunks_of fuel sz (concat xs) = xs.
+Proof.
+  induction xs as [|x xs IH]; intros sz fuel Hsz Hall Hf.
+  - destruct fuel; reflexivity.
+  - inversion Hall as [|? ? Hx Hxs]; subst. destruct fuel as [|f]; [simpl in Hf; lia|].
+    cbn [concat chunks_of]. destruct (x ++ concat xs) as [|y ys] eqn:E.
+    + destruct x; [simpl in Hsz; lia | discriminate].
+    + rewrite <- E. rewrite firstn_app_exact, skipn_app_exact. f_equal. apply IH; auto. simpl in Hf. lia.
+Qed.
+
+Lemma len_concat_fixed : forall (xs : list bytes) s, Forall (fun x => len_N x = s) xs -> len_N (concat xs) = s * len_N xs.
+Proof.
+  induction xs as [|x xs IH]; intros s Hall; [cbn; unfold len_N; simpl; lia|].
+  inversion Hall; subst. cbn [concat]. rewrite len_N_app, (IH _ H2), len_N_cons. lia.
+Qed.
+
+Lemma serialize_seq_fixed et vs s :
+  fixed_size et = Some s ->
+  layout (map (fun x => (is_fixed et, serialize et x)) vs) = concat (map (serialize et) vs).
+Proof.
+  intros Es. rewrite layout_all_fixed.
+  - now rewrite map_map.
+  - unfold all_fixed. rewrite forallb_forall. intros x Hx. apply in_map_iff in Hx as [y [<- _]].
+    simpl. eapply is_fixed_Some; eauto.
+Qed.
+
+Lemma part_le_concat : forall (xs : list bytes) x, In x xs -> len_N x <= len_N (concat xs).
+Proof.
+  induction xs as [|y xs IH]; intros x Hin; [contradiction|].
+  cbn [concat]. rewrite len_N_app. destruct Hin as [->|Hin]; [lia|]. specialize (IH x Hin). lia.
+Qed.
+
+Lemma forallb_In {A} (f : A -> bool) l x : forallb f l = true -> In x l -> f x = true.
+Proof. intros H Hin. rewrite forallb_forall in H. auto. Qed.
+
+Lemma deser_seq_fixed et s vs :
+  fixed_size et = Some s -> 0 < s ->
+  (forall x, In x vs -> deserialize et (serialize et x) = Some x) ->
+  forallb (has_type et) vs = true ->
+  all_some (map (deserialize et)
+     (chunks_of (length (concat (map (serialize et) vs))) (N.to_nat s) (concat (map (serialize et) vs)))) = Some vs.
+Proof.
+  intros Es Hs Hx Ht.
+  assert (Hall : Forall (fun b => length b = N.to_nat s) (map (serialize et) vs)).
+  { apply Forall_forall. intros b Hb. apply in_map_iff in Hb as [x [<- Hin]].
+    pose proof (ser_length et x s Es (forallb_In _ _ _ Ht Hin)) as Hl. unfold len_N in Hl. lia. }
+  rewrite chunks_of_concat; [now apply all_some_map_ok | lia | assumption |].
+  (* enough fuel: every chunk has at least one byte *)
+  clear -Hall Hs. induction (map (serialize et) vs) as [|b bs IH]; [simpl; lia|].
+  inversion Hall; subst. cbn [concat length]. rewrite app_length. specialize (IH H2). lia.
+Qed.
+
+(* ================= lists of variable-size elements ================= *)
+Lemma le_value_uint32 o : o < 2 ^ 32 -> le_value (uint32_bytes o) = o.
+Proof. intros H. unfold uint32_bytes. rewrite le_value_le_bytes. change (256 ^ N.of_nat 4) with (2 ^ 32). now apply N.mod_small. Qed.
+
+Definition all_var (parts : list (bool * bytes)) : bool := forallb (fun p => negb (fst p)) parts.
+Lemma layout_fixed_all_var : forall parts off, all_var parts = true ->
+  layout_fixed parts off = concat (map uint32_bytes (offs_of parts off)).
+Proof.
+  induction parts as [|[f b] ps IH]; intros off H; [reflexivity|].
+  cbn [all_var forallb fst] in H. apply andb_true_iff in H as [Hf Hps]. destruct f; [discriminate|].
+  cbn [layout_fixed offs_of map concat]. f_equal. now apply IH.
+Qed.
+Lemma fixed_part_len_all_var : forall parts, all_var parts = true -> fixed_part_len parts = 4 * len_N parts.
+Proof.
+  induction parts as [|[f b] ps IH]; intros H; [reflexivity|].
+  cbn [all_var forallb fst] in H. apply andb_true_iff in H as [Hf Hps]. destruct f; [discriminate|].
+  cbn [fixed_part_len fold_right fst]. fold (fixed_part_len ps). rewrite (IH Hps), len_N_cons. unfold BYTES_PER_LENGTH_OFFSET. lia.
+Qed.
+Lemma var_parts_all_var : forall parts, all_var parts = true -> var_parts parts = map snd parts.
+Proof.
+  induction parts as [|[f b] ps IH]; intros H; [reflexivity|].
+  cbn [all_var forallb fst] in H. apply andb_true_iff in H as [Hf Hps]. destruct f; [discriminate|].
+  cbn [var_parts flat_map fst snd app map]. f_equal. now apply IH.
+Qed.
+
+Lemma running_bounds : forall vs off o, In o (running off vs) -> off <= o /\ o <= off + len_N (concat vs).
+Proof.
+  induction vs as [|v vs IH]; intros off o Hin; [contradiction|].
+  cbn [running concat] in *. rewrite len_N_app. destruct Hin as [<-|Hin]; [lia|].
+  specialize (IH _ _ Hin). lia.
+Qed.
+Lemma running_length : forall vs off, length (running off vs) = length vs.
+Proof. induction vs; intros; simpl; [reflexivity | now rewrite IHvs]. Qed.
+
+Lemma map_le_value_uint32 : forall os, Forall (fun o => o < 2 ^ 32) os -> map le_value (map uint32_bytes os) = os.
+Proof.
+  induction os as [|o os IH]; intros H; [reflexivity|]. inversion H; subst.
+  cbn [map]. rewrite le_value_uint32 by assumption. now rewrite IH.
+Qed.
+
+Lemma uint32_bytes_length o : length (uint32_bytes o) = 4%nat.
+Proof. apply le_bytes_length. Qed.
+
+(* the offset table of a list of variable-size parts, read back *)
+Lemma read_offset_table : forall (encs : list bytes) (R : bytes) F,
+  F = 4 * len_N encs -> F + len_N (concat encs) < 2 ^ 32 ->
+  let OT := concat (map uint32_bytes (running F encs)) in
+  len_N OT = F /\
+  map le_value (chunks_of (N.to_nat F) 4 (firstn (N.to_nat F) (OT ++ R))) = running F encs.
+Proof.
+  intros encs R F HF Hlt OT.
+  assert (Hlen : len_N OT = F).
+  { unfold OT. rewrite (len_concat_fixed _ 4).
+    - unfold len_N. rewrite map_length, running_length. unfold len_N in HF. lia.
+    - apply Forall_forall. intros b Hb. apply in_map_iff in Hb as [o [<- _]]. unfold len_N. now rewrite uint32_bytes_length. }
+  split; [assumption|].
+  replace (N.to_nat F) with (length OT) by (unfold len_N in Hlen; lia).
+  rewrite firstn_app_exact. unfold OT at 2.
+  rewrite chunks_of_concat.
+  - apply map_le_value_uint32. apply Forall_forall. intros o Ho. apply running_bounds in Ho. lia.
+  - lia.
+  - apply Forall_forall. intros b Hb. apply in_map_iff in Hb as [o [<- _]]. apply uint32_bytes_length.
+  - rewrite map_length, running_length. unfold len_N in Hlen, HF.
+    assert (length OT = 4 * length encs)%nat by lia. lia.
+Qed.
+
+(* ================= containers ================= *)
+Section Scan.
+  Variable bs : bytes.
+  Fixpoint scan_fields (fs : list (string * ty)) (pos : N) : list (ty * option bytes * N) :=
+    match fs with
+    | [] => []
+    | (_, ft) :: fs' =>
+        match fixed_size ft with
+        | Some sz => (ft, Some (slice bs pos (pos + sz)), 0) :: scan_fields fs' (pos + sz)
+        | None => (ft, None, le_value (slice bs pos (pos + 4))) :: scan_fields fs' (pos + 4)
+        end
+    end.
+End Scan.
+Fixpoint build_fields (items : list (ty * option bytes * N)) (parts : list bytes)
+         (dec : list (ty -> bytes -> option value)) {struct items} : option (list value) :=
+  match items, dec with
+  | [], _ => Some []
+  | (ft, Some b, _) :: items', d :: dec' =>
+      match d ft b, build_fields items' parts dec' with
+      | Some v, Some r => Some (v :: r) | _, _ => None end
+  | (ft, None, _) :: items', d :: dec' =>
+      match parts with
+      | p :: parts' =>
+          match d ft p, build_fields items' parts' dec' with
+          | Some v, Some r => Some (v :: r) | _, _ => None end
+      | [] => None
+      end
+  | _ :: _, [] => None
+  end.
+Fixpoint mk_decs (fs : list (string * ty)) : list (ty -> bytes -> option value) :=
+  match fs with
+  | [] => []
+  | (_, ft) :: fs' => (fun _ b => deserialize ft b) :: mk_decs fs'
+  end.
+Definition item_offs (items : list (ty * option bytes * N)) : list N :=
+  flat_map (fun it => match it with (_, None, o) => [o] | _ => [] end) items.
+Definition slots_len (fs : list (string * ty)) : N :=
+  fold_right (fun (f : string * ty) acc => slot_size (snd f) + acc) 0 fs.
+
+Lemma deserialize_container fs bs :
+  deserialize (TContainer fs) bs =
+  if len_N bs <? slots_len fs then None else
+  let items := scan_fields bs fs 0 in
+  let offs := item_offs items in
+  let offs_good := match offs with
+                   | [] => len_N bs =? slots_len fs
+                   | o0 :: _ => (o0 =? slots_len fs) && offsets_ok o0 offs (len_N bs)
+                   end in
+  if negb offs_good then None else
+  match build_fields items (cut bs offs (len_N bs)) (mk_decs fs) with
+  | Some vs => Some (VCont vs)
+  | None => None
+  end.
+Proof. reflexivity. Qed.
+
+Fixpoint items_of (fs : list (string * ty)) (vs : list value) (off : N) : list (ty * option bytes * N) :=
+  match fs, vs with
+  | (_, ft) :: fs', x :: vs' =>
+      match fixed_size ft with
+      | Some _ => (ft, Some (serialize ft x), 0) :: items_of fs' vs' off
+      | None => (ft, None, off) :: items_of fs' vs' (off + len_N (serialize ft x))
+      end
+  | _, _ => []
+  end.
+
+Lemma len_N_uint32 o : len_N (uint32_bytes o) = 4.
+Proof. unfold len_N. now rewrite uint32_bytes_length. Qed.
+
+Lemma slots_len_parts : forall fs vs, type_fields fs vs = true -> slots_len fs = fixed_part_len (ser_fields fs vs).
+Proof.
+  induction fs as [|[fn ft] fs IH]; intros vs Ht; destruct vs as [|x vs]; try discriminate; [reflexivity|].
+  cbn [type_fields] in Ht. apply andb_true_iff in Ht as [Hx Hvs].
+  cbn [slots_len fold_right snd ser_fields fixed_part_len fst]. fold (slots_len fs). fold (fixed_part_len (ser_fields fs vs)).
+  rewrite (IH vs Hvs). f_equal. unfold slot_size, is_fixed.
+  destruct (fixed_size ft) as [s|] eqn:E; [|reflexivity]. symmetry. now apply ser_length.
+Qed.
+
+Lemma item_offs_items_of : forall fs vs off, type_fields fs vs = true ->
+  item_offs (items_of fs vs off) = offs_of (ser_fields fs vs) off.
+Proof.
+  induction fs as [|[fn ft] fs IH]; intros vs off Ht; destruct vs as [|x vs]; try discriminate; [reflexivity|].
+  cbn [type_fields] in Ht. apply andb_true_iff in Ht as [Hx Hvs].
+  cbn [items_of ser_fields]. unfold is_fixed. destruct (fixed_size ft) as [s|] eqn:E.
+  - cbn [item_offs flat_map offs_of app]. apply IH; assumption.
+  - cbn [item_offs flat_map offs_of app]. f_equal. apply IH; assumption.
+Qed.
+
+(* scanning the fixed part of a layout that sits after a prefix A *)
+Lemma scan_layout : forall fs vs A R off,
+  type_fields fs vs = true ->
+  (forall o, In o (offs_of (ser_fields fs vs) off) -> o < 2 ^ 32) ->
+  scan_fields (A ++ layout_fixed (ser_fields fs vs) off ++ R) fs (len_N A) = items_of fs vs off.
+Proof.
+  induction fs as [|[fn ft] fs IH]; intros vs A R off Ht Hoff; destruct vs as [|x vs]; try discriminate; [reflexivity|].
+  cbn [type_fields] in Ht. apply andb_true_iff in Ht as [Hx Hvs].
+  cbn [scan_fields items_of ser_fields]. unfold is_fixed. destruct (fixed_size ft) as [s|] eqn:E.
+  - cbn [layout_fixed]. pose proof (ser_length ft x s E Hx) as Hl.
+    rewrite <- app_assoc. rewrite (slice_mid' A (serialize ft x) _ (len_N A) (len_N A + s)) by (auto; now rewrite Hl).
+    f_equal.
+    specialize (IH vs (A ++ serialize ft x) R off Hvs).
+    rewrite len_N_app, Hl, <- app_assoc in IH. apply IH.
+    intros o Ho. apply Hoff. cbn [ser_fields offs_of]. unfold is_fixed. now rewrite E.
+  - cbn [layout_fixed]. rewrite <- app_assoc.
+    assert (Ho : off < 2 ^ 32).
+    { apply Hoff. cbn [ser_fields offs_of]. unfold is_fixed. rewrite E. now left. }
+    rewrite (slice_mid' A (uint32_bytes off) _ (len_N A) (len_N A + 4))
+      by (auto; now rewrite len_N_uint32).
+    rewrite le_value_uint32 by assumption. f_equal.
+    specialize (IH vs (A ++ uint32_bytes off) R (off + len_N (serialize ft x)) Hvs).
+    rewrite len_N_app, len_N_uint32, <- app_assoc in IH.
+    apply IH. intros o Hin. apply Hoff. cbn [ser_fields offs_of]. unfold is_fixed. rewrite E. now right.
+Qed.
+
+Lemma build_items_of : forall fs vs off,
+  type_fields fs vs = true ->
+  Forall2 (fun (f : string * ty) x => deserialize (snd f) (serialize (snd f) x) = Some x) fs vs ->
+  build_fields (items_of fs vs off) (var_parts (ser_fields fs vs)) (mk_decs fs) = Some vs.
+Proof.
+  induction fs as [|[fn ft] fs IH]; intros vs off Ht Hd; destruct vs as [|x vs]; try discriminate; [reflexivity|].
+  cbn [type_fields] in Ht. apply andb_true_iff in Ht as [Hx Hvs].
+  inversion Hd as [|? ? ? ? Hdx Hdr]; subst. cbn [snd] in Hdx.
+  cbn [items_of ser_fields mk_decs]. unfold is_fixed. destruct (fixed_size ft) as [s|] eqn:E.
+  - cbn [var_parts flat_map fst app build_fields]. rewrite Hdx.
+    fold (var_parts (ser_fields fs vs)). rewrite (IH vs off Hvs Hdr). reflexivity.
+  - cbn [var_parts flat_map fst snd app build_fields]. rewrite Hdx.
+    fold (var_parts (ser_fields fs vs)). rewrite (IH vs _ Hvs Hdr). reflexivity.
+Qed.
+
+Lemma var_part_le_layout : forall parts b, In b (var_parts parts) -> len_N b <= len_N (layout parts).
+Proof.
+  intros parts b Hin. unfold layout. rewrite len_N_app, layout_var_concat.
+  pose proof (part_le_concat _ _ Hin). lia.
+Qed.
+Lemma fixed_part_le : forall parts b, In (true, b) parts -> len_N b <= fixed_part_len parts.
+Proof.
+  induction parts as [|[f c] ps IH]; intros b Hin; [contradiction|].
+  cbn [fixed_part_len fold_right]. fold (fixed_part_len ps). destruct Hin as [Heq|Hin].
+  - injection Heq as -> ->. cbn [fst snd]. lia.
+  - specialize (IH b Hin). destruct f; cbn [fst snd]; lia.
+Qed.
+Lemma part_le_layout : forall parts f b, In (f, b) parts -> len_N b <= len_N (layout parts).
+Proof.
+  intros parts f b Hin. destruct f.
+  - unfold layout. rewrite len_N_app, layout_fixed_len. pose proof (fixed_part_le _ _ Hin). lia.
+  - apply var_part_le_layout. unfold var_parts. apply in_flat_map. exists (false, b). split; [assumption | now left].
+Qed.
+
+Lemma offs_bound parts : forall o, In o (offs_of parts (fixed_part_len parts)) -> o <= len_N (layout parts).
+Proof.
+  intros o Ho. rewrite offs_of_running in Ho. apply running_bounds in Ho.
+  unfold layout. rewrite len_N_app, layout_fixed_len, layout_var_concat. lia.
+Qed.
+
+(* the container case, given the round trip of every field *)
+Lemma deser_ser_container fs vs :
+  type_fields fs vs = true ->
+  len_N (layout (ser_fields fs vs)) < 2 ^ 32 ->
+  Forall2 (fun (f : string * ty) x => deserialize (snd f) (serialize (snd f) x) = Some x) fs vs ->
+  deserialize (TContainer fs) (layout (ser_fields fs vs)) = Some (VCont vs).
+Proof.
+  intros Ht Hlt Hd. rewrite deserialize_container.
+  set (parts := ser_fields fs vs) in *.
+  set (F := fixed_part_len parts).
+  assert (HF : slots_len fs = F) by (apply slots_len_parts; assumption).
+  assert (Hlay : layout parts = layout_fixed parts F ++ concat (var_parts parts)).
+  { unfold layout. now rewrite layout_var_concat. }
+  assert (HlenFX : len_N (layout_fixed parts F) = F) by apply layout_fixed_len.
+  assert (Hlen : len_N (layout parts) = F + len_N (concat (var_parts parts))).
+  { rewrite Hlay, len_N_app, HlenFX. reflexivity. }
+  rewrite HF.
+  assert (Hge : (len_N (layout parts) <? F) = false) by (apply N.ltb_ge; lia).
+  rewrite Hge.
+  assert (Hscan : scan_fields (layout parts) fs 0 = items_of fs vs F).
+  { rewrite Hlay.
+    pose proof (scan_layout fs vs [] (concat (var_parts parts)) F Ht) as Hs.
+    cbn [app] in Hs. change (len_N (@nil N)) with 0 in Hs. apply Hs.
+    intros o Ho. pose proof (offs_bound parts o Ho). lia. }
+  cbv zeta. rewrite Hscan. rewrite item_offs_items_of by assumption. fold parts.
+  rewrite offs_of_running.
+  destruct (var_parts parts) as [|v vsr] eqn:Ev.
+  - (* no variable-size field *)
+    cbn [running]. cbn [concat] in Hlen. rewrite len_N_nil in Hlen.
+    replace (len_N (layout parts) =? F) with true by (symmetry; apply N.eqb_eq; lia).
+    cbn [negb cut].
+    pose proof (build_items_of fs vs F Ht Hd) as Hb. fold parts in Hb. rewrite Ev in Hb. now rewrite Hb.
+  - assert (Hrun : running F (v :: vsr) = F :: running (F + len_N v) vsr) by reflexivity.
+    rewrite Hrun, N.eqb_refl. rewrite <- Hrun.
+    rewrite (offsets_ok_running (v :: vsr) F (len_N (layout parts))) by (now rewrite Hlen).
+    cbn [andb negb].
+    assert (Hcut : cut (layout parts) (running F (v :: vsr)) (len_N (layout parts)) = v :: vsr).
+    { pose proof (cut_running (v :: vsr) (layout_fixed parts F) ltac:(discriminate)) as Hc.
+      rewrite HlenFX in Hc. rewrite Hlen, Hlay. exact Hc. }
+    rewrite Hcut.
+    pose proof (build_items_of fs vs F Ht Hd) as Hb. fold parts in Hb. rewrite Ev in Hb. now rewrite Hb.
+Qed.
+
+(* ================= lists of variable-size elements: round trip ================= *)
+Lemma match_nonempty {A B} (l : list A) (a b : B) : l <> [] -> match l with [] => a | _ :: _ => b end = b.
+Proof. destruct l; [contradiction | reflexivity]. Qed.
+Lemma deser_ser_list_var et l vs :
+  fixed_size et = None ->
+  len_N vs <= l ->
+  len_N (layout (map (fun x => (is_fixed et, serialize et x)) vs)) < 2 ^ 32 ->
+  (forall x, In x vs -> deserialize et (serialize et x) = Some x) ->
+  deserialize (TList et l) (layout (map (fun x => (is_fixed et, serialize et x)) vs)) = Some (VSeq vs).
+Proof.
+  intros En Hl Hlt Hd.
+  assert (Hnf : is_fixed et = false) by (unfold is_fixed; now rewrite En).
+  rewrite Hnf in *.
+  destruct vs as [|x0 vs0]; [cbn [deserialize map]; rewrite En; reflexivity|].
+  remember (x0 :: vs0) as vs eqn:Evs.
+  set (parts := map (fun x => (false, serialize et x)) vs) in *.
+  cbn [deserialize]. rewrite En.
+  assert (Hav : all_var parts = true).
+  { unfold all_var, parts. rewrite forallb_forall. intros p Hp. apply in_map_iff in Hp as [y [<- _]]. reflexivity. }
+  set (encs := map (serialize et) vs).
+  assert (Hvp : var_parts parts = encs).
+  { rewrite var_parts_all_var by assumption. unfold parts, encs. rewrite map_map. reflexivity. }
+  set (F := fixed_part_len parts).
+  assert (HF : F = 4 * len_N encs).
+  { unfold F. rewrite fixed_part_len_all_var by assumption. unfold parts, encs, len_N. rewrite !map_length. reflexivity. }
+  assert (Hlay : layout parts = concat (map uint32_bytes (running F encs)) ++ concat encs).
+  { unfold layout. rewrite layout_var_concat, Hvp. rewrite layout_fixed_all_var by assumption.
+    rewrite offs_of_running, Hvp. reflexivity. }
+  assert (Hk : 1 <= len_N encs).
+  { unfold encs, len_N. rewrite map_length, Evs. simpl length. lia. }
+  destruct (read_offset_table encs (concat encs) F HF) as [HlenOT Hread].
+  { rewrite Hlay, len_N_app in Hlt.
+    assert (len_N (concat (map uint32_bytes (running F encs))) = F).
+    { rewrite (len_concat_fixed _ 4).
+      - unfold len_N. rewrite map_length, running_length. unfold len_N in HF. lia.
+      - apply Forall_forall. intros b Hb. apply in_map_iff in Hb as [o [<- _]]. apply len_N_uint32. }
+    lia. }
+  set (OT := concat (map uint32_bytes (running F encs))) in *.
+  assert (Hlen : len_N (layout parts) = F + len_N (concat encs)) by (rewrite Hlay, len_N_app, HlenOT; reflexivity).
+  assert (HFlt : F < 2 ^ 32) by lia.
+  (* the encoding is not empty *)
+  assert (Hne : layout parts <> []).
+  { intro E. rewrite E, len_N_nil in Hlen. lia. }
+  rewrite match_nonempty by exact Hne.
+  assert (H4 : (len_N (layout parts) <? 4) = false) by (apply N.ltb_ge; lia).
+  rewrite H4.
+  (* first offset *)
+  assert (Ho0 : le_value (firstn 4 (layout parts)) = F).
+  { rewrite Hlay. unfold OT. destruct encs as [|e0 encs0] eqn:Ee; [rewrite len_N_nil in Hk; lia|].
+    cbn [running map concat]. rewrite <- !app_assoc.
+    replace 4%nat with (length (uint32_bytes F)) by apply uint32_bytes_length.
+    rewrite firstn_app_exact. now apply le_value_uint32. }
+  rewrite Ho0.
+  assert (Hc1 : (F mod 4 =? 0) = true) by (apply N.eqb_eq; rewrite HF, N.mul_comm; apply N.mod_mul; lia).
+  assert (Hc2 : (F =? 0) = false) by (apply N.eqb_neq; lia).
+  assert (Hc3 : (len_N (layout parts) <? F) = false) by (apply N.ltb_ge; lia).
+  assert (Hc4 : (l <? F / 4) = false).
+  { apply N.ltb_ge. rewrite HF, N.mul_comm, N.div_mul by lia.
+    unfold encs, len_N. rewrite map_length. unfold len_N in Hl. exact Hl. }
+  rewrite Hc1, Hc2, Hc3, Hc4. cbn [negb orb].
+  assert (Hread' : map le_value (chunks_of (N.to_nat F) 4 (firstn (N.to_nat F) (layout parts))) = running F encs)
+    by (rewrite Hlay; exact Hread).
+  rewrite Hread'.
+  rewrite (offsets_ok_running encs F (len_N (layout parts))) by (now rewrite Hlen).
+  assert (Hcut : cut (layout parts) (running F encs) (len_N (layout parts)) = encs).
+  { pose proof (cut_running encs OT) as Hc. rewrite HlenOT in Hc. rewrite Hlen, Hlay. apply Hc.
+    intro E. rewrite E, len_N_nil in Hk. lia. }
+  rewrite Hcut. unfold encs. rewrite all_some_map_ok by assumption. reflexivity.
+Qed.
+
+(* ================= the round-trip theorem ================= *)
+Lemma type_fields_length : forall fs vs, type_fields fs vs = true -> length fs = length vs.
+Proof.
+  induction fs as [|[n t] fs IH]; intros [|x vs] H; try discriminate; [reflexivity|].
+  cbn [type_fields] in H. apply andb_true_iff in H as [_ H]. simpl. f_equal. now apply IH.
+Qed.
+
+Theorem deser_ser : forall t, wf_ty t = true -> forall v,
+  has_type t v = true -> len_N (serialize t v) < 2 ^ 32 ->
+  deserialize t (serialize t v) = Some v.
+Proof.
+  induction t using ty_ind'; intros Hw v Ht Hlt.
+  - destruct v; try discriminate. now apply deser_ser_uint.
+  - destruct v; try discriminate. apply deser_ser_bool.
+  - destruct v; try discriminate. now apply deser_ser_bytevector.
+  - destruct v; try discriminate. now apply deser_ser_bytelist.
+  - destruct v; try discriminate. now apply deser_ser_bitvector.
+  - destruct v; try discriminate. now apply deser_ser_bitlist.
+  - (* vector of fixed-size elements *)
+    destruct v; try discriminate.
+    cbn [wf_ty] in Hw. apply andb_true_iff in Hw as [Hw Hf]. apply andb_true_iff in Hw as [Hn Hwt]. apply N.ltb_lt in Hn.
+    unfold is_fixed in Hf. destruct (fixed_size t) as [s|] eqn:Es; [|discriminate].
+    pose proof (wf_fixed_pos t s Hwt Es) as Hs.
+    pose proof Ht as Ht0. cbn [has_type] in Ht. apply andb_true_iff in Ht as [Hl Hall]. apply N.eqb_eq in Hl.
+    assert (Hlen : len_N (serialize (TVector t n) (VSeq vs)) = s * n).
+    { apply ser_length; [cbn [fixed_size]; now rewrite Es | assumption]. }
+    cbn [serialize] in *. rewrite (serialize_seq_fixed t vs s Es) in *.
+    cbn [deserialize]. rewrite Es, Hlen, N.eqb_refl.
+    replace (n =? 0) with false by (symmetry; apply N.eqb_neq; lia). cbn [negb andb].
+    rewrite deser_seq_fixed; auto.
+    intros x Hx. apply IHt; [assumption | eapply forallb_In; eauto |].
+    pose proof (part_le_concat (map (serialize t) vs) (serialize t x) (in_map _ _ _ Hx)). lia.
+  - (* list *)
+    destruct v; try discriminate. cbn [wf_ty] in Hw.
+    cbn [has_type] in Ht. apply andb_true_iff in Ht as [Hl Hall]. apply N.leb_le in Hl.
+    cbn [serialize] in *.
+    destruct (fixed_size t) as [s|] eqn:Es.
+    + pose proof (wf_fixed_pos t s Hw Es) as Hs.
+      rewrite (serialize_seq_fixed t vs s Es) in *.
+      assert (Hcl : len_N (concat (map (serialize t) vs)) = s * len_N vs).
+      { rewrite (len_concat_fixed _ s).
+        - unfold len_N. now rewrite map_length.
+        - apply Forall_forall. intros b Hb. apply in_map_iff in Hb as [x [<- Hin]].
+          apply ser_length; [assumption | eapply forallb_In; eauto]. }
+      cbn [deserialize]. rewrite Es.
+      replace (s =? 0) with false by (symmetry; apply N.eqb_neq; lia).
+      rewrite Hcl. rewrite N.mul_comm, N.mod_mul, N.div_mul by lia. rewrite N.eqb_refl.
+      replace (len_N vs <=? n) with true by (symmetry; now apply N.leb_le). cbn [andb].
+      rewrite deser_seq_fixed; auto.
+      intros x Hx. apply IHt; [assumption | eapply forallb_In; eauto |].
+      pose proof (part_le_concat (map (serialize t) vs) (serialize t x) (in_map _ _ _ Hx)). lia.
+    + apply deser_ser_list_var; auto.
+      intros x Hx. apply IHt; [assumption | eapply forallb_In; eauto |].
+      pose proof (part_le_layout (map (fun x => (is_fixed t, serialize t x)) vs) (is_fixed t) (serialize t x)) as Hp.
+      assert (Hin : In (is_fixed t, serialize t x) (map (fun x => (is_fixed t, serialize t x)) vs))
+        by (apply in_map_iff; exists x; auto).
+      specialize (Hp Hin). lia.
+  - (* container *)
+    destruct v; try discriminate.
+    rewrite wf_ty_container in Hw. apply andb_true_iff in Hw as [_ Hw].
+    rewrite has_type_container in Ht. rewrite serialize_container in *.
+    apply deser_ser_container; [assumption | assumption |].
+    (* every field round-trips, by the induction hypothesis *)
+    assert (Hparts : forall f x, In (f, x) (ser_fields fs vs) -> len_N x < 2 ^ 32).
+    { intros f x Hin. pose proof (part_le_layout _ _ _ Hin). lia. }
+    clear Hlt. revert vs Ht Hparts Hw. induction H as [|[fn ft] fs' Hft Hrest IH]; intros vs Ht Hparts Hw.
+    + destruct vs; [constructor | discriminate].
+    + destruct vs as [|x vs]; [discriminate|]. cbn [type_fields] in Ht. apply andb_true_iff in Ht as [Hx Hvs].
+      cbn [wf_fields] in Hw. apply andb_true_iff in Hw as [Hwt Hwr].
+      constructor.
+      * cbn [snd] in *. apply Hft; [assumption | assumption |].
+        apply (Hparts (is_fixed ft)). cbn [ser_fields]. now left.
+      * apply IH; [assumption | | assumption].
+        intros f y Hin. apply (Hparts f). cbn [ser_fields]. now right.
+Qed.
+
+(* corollary: what Serialize writes is what ByteLength/FixedLength must report, and it decodes back *)
+Corollary ser_deser_canonical : forall t, wf_ty t = true -> forall v,
+  has_type t v = true -> len_N (serialize t v) < 2 ^ 32 ->
+  exists v', deserialize t (serialize t v) = Some v' /\ serialize t v' = serialize t v.
+Proof. intros t Hw v Ht Hl. exists v. split; [now apply deser_ser | reflexivity]. Qed.
+
+(* ================= refusals ================= *)
+(* a fixed-size type accepts exactly its size: truncated input AND trailing bytes are refused *)
+Lemma slots_len_all_fixed : forall fs n, size_fields fs = Some n -> slots_len fs = n.
+Proof.
+  induction fs as [|[fn ft] fs IH]; intros n H; cbn [size_fields slots_len fold_right snd] in *.
+  - now injection H as <-.
+  - fold (slots_len fs). destruct (fixed_size ft) as [a|] eqn:Ea; [|discriminate].
+    destruct (size_fields fs) as [b|] eqn:Eb; [|discriminate]. injection H as <-.
+    rewrite (IH b eq_refl). unfold slot_size. now rewrite Ea.
+Qed.
+Lemma item_offs_all_fixed : forall bs fs pos n, size_fields fs = Some n -> item_offs (scan_fields bs fs pos) = [].
+Proof.
+  intros bs. induction fs as [|[fn ft] fs IH]; intros pos n H; [reflexivity|].
+  cbn [size_fields scan_fields] in *. destruct (fixed_size ft) as [a|] eqn:Ea; [|discriminate].
+  destruct (size_fields fs) as [b|] eqn:Eb; [|discriminate].
+  cbn [item_offs flat_map app]. eapply IH. reflexivity.
+Qed.
+
+Theorem deser_fixed_exact_length : forall t n bs v,
+  fixed_size t = Some n -> deserialize t bs = Some v -> len_N bs = n.
+Proof.
+  intros t n bs v Hs Hd. destruct t; cbn [fixed_size] in Hs; try discriminate.
+  - injection Hs as <-. cbn [deserialize] in Hd. destruct (len_N bs =? nbytes) eqn:E; [now apply N.eqb_eq in E | discriminate].
+  - injection Hs as <-. cbn [deserialize] in Hd.
+    destruct bs as [|b [|b' r]]; try discriminate; [reflexivity | destruct b as [|[| |]]; discriminate].
+  - injection Hs as <-. cbn [deserialize] in Hd. destruct (len_N bs =? n0) eqn:E; [now apply N.eqb_eq in E | discriminate].
+  - injection Hs as <-. cbn [deserialize] in Hd.
+    destruct (len_N bs =? (n0 + 7) / 8) eqn:E; [now apply N.eqb_eq in E | discriminate].
+  - destruct (fixed_size t) as [s|] eqn:Es; [|discriminate]. injection Hs as <-.
+    cbn [deserialize] in Hd. rewrite Es in Hd.
+    destruct ((len_N bs =? s * n0) && negb (n0 =? 0)) eqn:E; [|discriminate].
+    apply andb_true_iff in E as [E _]. now apply N.eqb_eq in E.
+  - change (size_fields fields = Some n) in Hs. rewrite deserialize_container in Hd.
+    rewrite (slots_len_all_fixed _ _ Hs) in Hd.
+    destruct (len_N bs <? n) eqn:E1; [discriminate|]. cbv zeta in Hd.
+    rewrite (item_offs_all_fixed bs fields 0 n Hs) in Hd.
+    destruct (len_N bs =? n) eqn:E2; [now apply N.eqb_eq in E2 | discriminate].
+Qed.
+Corollary deser_rejects_truncated_fixed : forall t n bs, fixed_size t = Some n -> len_N bs < n -> deserialize t bs = None.
+Proof.
+  intros t n bs Hs Hl. destruct (deserialize t bs) as [v|] eqn:E; [|reflexivity].
+  pose proof (deser_fixed_exact_length t n bs v Hs E). lia.
+Qed.
+Corollary deser_rejects_trailing_fixed : forall t n bs, fixed_size t = Some n -> n < len_N bs -> deserialize t bs = None.
+Proof.
+  intros t n bs Hs Hl. destruct (deserialize t bs) as [v|] eqn:E; [|reflexivity].
+  pose proof (deser_fixed_exact_length t n bs v Hs E). lia.
+Qed.
+
+(* limits *)
+Theorem deser_bitlist_limit : forall l bs b, deserialize (TBitlist l) bs = Some (VBits b) -> len_N b <= l.
+Proof.
+  intros l bs b H. cbn [deserialize] in H. destruct (bitlist_decode bs) as [bits|]; [|discriminate].
+  destruct (len_N bits <=? l) eqn:E; [|discriminate]. injection H as <-. now apply N.leb_le.
+Qed.
+Theorem deser_bytelist_limit : forall l bs b, deserialize (TByteList l) bs = Some (VBytes b) -> len_N b <= l.
+Proof.
+  intros l bs b H. cbn [deserialize] in H. destruct (len_N bs <=? l) eqn:E; [|discriminate]. injection H as <-. now apply N.leb_le.
+Qed.
+(* a bitlist needs its delimiter bit *)
+Theorem deser_bitlist_needs_delimiter : forall l bs, (bs = [] \/ exists p, bs = p ++ [0]) -> deserialize (TBitlist l) bs = None.
+Proof.
+  intros l bs [->|[p ->]]; [reflexivity|].
+  cbn [deserialize]. unfold bitlist_decode. rewrite rev_app_distr. reflexivity.
+Qed.
+
+(* offsets: an accepted container has its first offset at the end of the fixed part, and its offsets
+   nondecreasing and inside the input *)
+Lemma offsets_ok_spec : forall offs prev total, offsets_ok prev offs total = true ->
+  prev <= total /\ forall o, In o offs -> prev <= o /\ o <= total.
+Proof.
+  induction offs as [|o offs IH]; intros prev total H; cbn [offsets_ok] in H.
+  - apply N.leb_le in H. split; [assumption | contradiction].
+  - apply andb_true_iff in H as [H1 H2]. apply N.leb_le in H1. destruct (IH _ _ H2) as [A B].
+    split; [lia|]. intros x [<-|Hx]; [lia|]. specialize (B x Hx). lia.
+Qed.
+Theorem deser_container_offsets : forall fs bs v,
+  deserialize (TContainer fs) bs = Some v ->
+  slots_len fs <= len_N bs /\
+  match item_offs (scan_fields bs fs 0) with
+  | [] => len_N bs = slots_len fs
+  | o0 :: rest => o0 = slots_len fs /\ forall o, In o (o0 :: rest) -> o0 <= o /\ o <= len_N bs
+  end.
+Proof.
+  intros fs bs v H. rewrite deserialize_container in H.
+  destruct (len_N bs <? slots_len fs) eqn:E1; [discriminate|]. apply N.ltb_ge in E1. split; [assumption|].
+  cbv zeta in H. destruct (item_offs (scan_fields bs fs 0)) as [|o0 rest] eqn:Eo.
+  - destruct (len_N bs =? slots_len fs) eqn:E2; [now apply N.eqb_eq in E2 | discriminate].
+  - destruct ((o0 =? slots_len fs) && offsets_ok o0 (o0 :: rest) (len_N bs)) eqn:E2; [|discriminate].
+    apply andb_true_iff in E2 as [A B]. apply N.eqb_eq in A. split; [assumption|].
+    apply offsets_ok_spec in B. destruct B as [_ B]. exact B.
+Qed.
